@@ -73,7 +73,7 @@ func benignControls(e *Env, prop string, spec *Spec) {
 	r := e.R
 	files, _ := filepath.Glob(filepath.Join(r.VerifDir, "selftest", "benign", "agents", "*", "r*.diff"))
 	sort.Strings(files)
-	nRun, nSilent := 0, 0
+	nRun, nSilent, nRel := 0, 0, 0
 	var noisy []string
 	for _, patch := range files {
 		b, err := os.ReadFile(patch)
@@ -94,6 +94,13 @@ func benignControls(e *Env, prop string, spec *Spec) {
 		}
 		if !relevant {
 			continue
+		}
+		// C19 analyses 49 targets per variant: every third relevant variant (fixed order) keeps the tier within minutes
+		if prop == "C19" {
+			nRel++
+			if nRel%3 != 1 {
+				continue
+			}
 		}
 		tmp, err := os.MkdirTemp("", "sbpf-benign-")
 		if err != nil {
